@@ -70,13 +70,15 @@ def parse_result(out):
     return 'FAILED', '; '.join(failed_checks)[:600]
 
 
-def cover_status(out):
-    """(satisfied, total) cover properties of the harness's own kani::cover! calls"""
-    m = re.search(r'\*\* (\d+) of (\d+) cover properties satisfied', out)
-    if m:
-        return int(m.group(1)), int(m.group(2))
-    sat = len(re.findall(r'Status: SATISFIED', out))
-    tot = sat + len(re.findall(r'Status: UN(?:SATISFIABLE|REACHABLE)', out))
+def cover_status(out, harness=None):
+    """(satisfied, total) of the harness's own kani::cover! properties (covers inside library code are not counted)"""
+    sat = tot = 0
+    for m in re.finditer(r'^Check \d+: (\S+)\.cover\.\d+\n\s+- Status: (\w+)', out, re.M):
+        if harness is not None and not m.group(1).endswith(harness):
+            continue
+        tot += 1
+        if m.group(2) == 'SATISFIED':
+            sat += 1
     return sat, tot
 
 
@@ -192,7 +194,7 @@ def run_harnesses(harnesses, tier, jobs=6):
         ob.solver_s = st.get('solver_s', 0.0)
         ob.extra['kani'] = dict(st, harness=h.name, crate=h.crate, verdict=verdict)
         ob.stubs = h.stubs
-        sat, tot = cover_status(out)
+        sat, tot = cover_status(out, h.name)
         ob.samples = [{'harness': h.name, 'crate': h.crate, 'bounds': h.bounds, 'verdict': verdict, 'cover_satisfied': '%d/%d' % (sat, tot)}]
         if h.expect_fail:
             # vacuity twin: must come back FAILED
